@@ -1,6 +1,8 @@
 import PikoModel.Generated.Facts
 import Proofs.LockOrder
 import Props.C05
+import Proofs.SysLeave
+import Props.C01
 /-!
 # C20 — Concurrent operation never deadlocks, panics or races; consistency at quiescence
 
@@ -64,18 +66,18 @@ def lockRank : String → Nat
 by any number of threads under any schedule contains a wait-for cycle — including the
 one-thread cycle of re-locking a mutex already held. -/
 theorem C20_no_circular_wait {L : Type} [DecidableEq L] (edges : List (L × L)) (rank : L → Nat)
-    (hr : Ranked rank edges) (s : Sys L) (h : Reach edges s) : ¬ CircularWait s :=
+    (hr : Ranked rank edges) (s : Conc.Sys L) (h : Reach edges s) : ¬ CircularWait s :=
   no_circular_wait hr h
 
 /-- **Progress.**  Under the same hypothesis, whenever some thread is blocked on a lock, some
 thread can move: a blocked thread whose lock is free, or a running thread that holds a lock. -/
 theorem C20_progress {L : Type} [DecidableEq L] (edges : List (L × L)) (rank : L → Nat)
-    (hr : Ranked rank edges) (s : Sys L) (h : Reach edges s) (i : Nat) (l : L)
+    (hr : Ranked rank edges) (s : Conc.Sys L) (h : Reach edges s) (i : Nat) (l : L)
     (hw : (s i).waiting = some l) : ∃ j, CanMove s j :=
   progress hr h i l hw
 
 /-- the model is a lock: in every reachable state a lock is held by at most one thread -/
-theorem C20_mutual_exclusion {L : Type} [DecidableEq L] (edges : List (L × L)) (s : Sys L)
+theorem C20_mutual_exclusion {L : Type} [DecidableEq L] (edges : List (L × L)) (s : Conc.Sys L)
     (h : Reach edges s) (i j : Nat) (l : L) (hi : l ∈ (s i).held) (hj : l ∈ (s j).held) : i = j :=
   excl_reach h i j l hi hj
 
@@ -110,7 +112,7 @@ theorem C20_guarded_fields : Facts.unguardedAccesses = some [] := by
 wait and never gets stuck with a blocked thread -/
 theorem C20_extracted_graph_deadlock_free :
     ∃ es, Facts.lockEdges = some es ∧
-      ∀ s : Sys String, Reach es s →
+      ∀ s : Conc.Sys String, Reach es s →
         ¬ CircularWait s ∧ ∀ i l, (s i).waiting = some l → ∃ j, CanMove s j := by
   obtain ⟨es, he, hr, _⟩ := C20_acyclic
   exact ⟨es, he, fun s h => ⟨no_circular_wait hr h, fun i l hw => progress hr h i l hw⟩⟩
@@ -155,7 +157,7 @@ example : ¬ Ranked lockRank [("gossip.mu", "gossip.mu")] := by decide
 
 /-- the two-thread inversion is reachable and is a circular wait when the graph has both edges
 (thread 0: lock a, then b; thread 1: lock b, then a) — `Ranked` is exactly what excludes it -/
-example : ∃ s : Sys String, Reach [("a", "b"), ("b", "a")] s ∧ CircularWait s := by
+example : ∃ s : Conc.Sys String, Reach [("a", "b"), ("b", "a")] s ∧ CircularWait s := by
   have r0 : Reach [("a", "b"), ("b", "a")] (Sys.idle String) := .init
   have r1 := Reach.step r0 (Step.request _ 0 "a" rfl (by simp [Sys.idle]))
   have r2 := Reach.step r1 (Step.grant _ 0 "a" (by simp [Sys.set])
@@ -178,5 +180,97 @@ example :
     (reach "n" "p" "a" [.add ⟨1, "e"⟩, .add ⟨2, "e"⟩, .rm ⟨1, "e"⟩]).cluster.localNode.endpoints.find "e" = some 1 ∧
     advertised (reach "n" "p" "a" [.add ⟨1, "e"⟩, .add ⟨2, "e"⟩, .rm ⟨1, "e"⟩]) "e" = some "1" := by
   decide
+
+/-! ## Consistency at quiescence, about the whole system
+
+`C20_quiescent_consistent` above is about one node's manager (`Upstream.reach`).  The two theorems
+below are about the one system model `PikoModel/Sys/System.lean` (gossip + syncer + manager of every
+node): the three stores of every node agree in **every** reachable state (the manager mutex makes
+`AddConn`/`RemoveConn` atomic: `C05_facts_atomic`), and once activity has stopped and gossip has run
+(a settle schedule) every *other* node's copies - its gossip view and its routing-table row - agree
+with them too. -/
+
+/-- **The three local stores agree in every reachable system state** (`C05_counts` about `Sys`): for
+every node `a` and endpoint `e`, the local row of `a`'s routing table (`LocalNode()`, filed under
+`a`'s id) counts exactly the registered upstreams (absent ⇔ none), and `a`'s live own gossip entry
+`endpoint:<e>` carries exactly that count (absent or tombstoned ⇔ none). -/
+theorem C20_system_local_consistent (ops : List SysOp) (hall : SysAllowed ops) (a : String) (x : SysNode)
+    (ha : (Piko.Sys.runRev ops).node a = some x) (e : String) :
+    (∃ row, x.mgr.cluster.nodes.find a = some row ∧ row.id = a ∧ x.mgr.cluster.localNode = row ∧
+      row.endpoints.find e =
+        if (x.mgr.registry e).length = 0 then none else some ((x.mgr.registry e).length : Int)) ∧
+    advertised x.mgr e =
+      (if (x.mgr.registry e).length = 0 then none else some (toString (x.mgr.registry e).length)) := by
+  obtain ⟨sd, g, hsd, hg, rfl⟩ := Piko.Sys.node_eq ha
+  have hni := (sysInv_runRev ops hall).node a sd g hsd hg
+  obtain ⟨row, hrow, hid⟩ := hni.tloc
+  have hloc : sd.table.localNode = row := by
+    simp [Cluster.State.localNode, hni.tlid, hrow]
+  refine ⟨⟨row, hrow, hid, hloc, ?_⟩, hni.minv.adv e⟩
+  rw [← hloc]
+  exact hni.minv.counts e
+
+/-- **When activity stops, the upstream registry, the routing table and the published gossip state
+are mutually consistent - across the cluster.**  `ops` is any reachable history, `sched` a settle
+schedule (receive-side steps only, containing `join r b` for every ordered pair of nodes), on a
+cluster where nobody has left (and every node has non-empty addresses and fewer than 2^63 upstreams
+per endpoint: `config.Validate`, `Atoi` range).  Then for every node `a`:
+* its own three stores agree (`C20_system_local_consistent`), and
+* for every other node `r`: `r`'s gossip view `V` of `a` **is** `a`'s published state (same version,
+  same entry - value, tombstone flag, version - or same absence under every key; in particular the
+  live value of `endpoint:<e>` is the count `a` advertises), it is not flagged left; `a` is not
+  pending at `r`; and `r`'s routing-table row of `a` has `a`'s addresses and, for every endpoint,
+  exactly the count of `a`'s local row = the number of upstreams registered at `a`; its status is
+  what `r`'s failure detector last said. -/
+theorem C20_system_quiescent_consistent (ops sched : List SysOp) (hall : SysAllowed (sched ++ ops))
+    (hq : ∀ op ∈ sched, op.quiet.isSome = true)
+    (hjoins : ∀ r b, r ≠ b → ((Piko.Sys.runRev ops).node r).isSome = true →
+      ((Piko.Sys.runRev ops).node b).isSome = true → ∃ now, SysOp.join r b true now ∈ sched)
+    (hnl : ∀ n x, (Piko.Sys.runRev (sched ++ ops)).node n = some x → (Gossip.own x.mgr.gossip).left = false)
+    (haddr : ∀ n x, (Piko.Sys.runRev (sched ++ ops)).node n = some x →
+      x.mgr.cluster.localNode.proxyAddr ≠ "" ∧ x.mgr.cluster.localNode.adminAddr ≠ "")
+    (hsmall : ∀ n x e, (Piko.Sys.runRev (sched ++ ops)).node n = some x → (x.mgr.registry e).length < 2 ^ 63)
+    (a : String) (xa : SysNode) (ha : (Piko.Sys.runRev (sched ++ ops)).node a = some xa) :
+    (∀ e, xa.mgr.cluster.localNode.endpoints.find e =
+        (if (xa.mgr.registry e).length = 0 then none else some ((xa.mgr.registry e).length : Int)) ∧
+      advertised xa.mgr e =
+        (if (xa.mgr.registry e).length = 0 then none else some (toString (xa.mgr.registry e).length))) ∧
+    (∀ r xr, r ≠ a → (Piko.Sys.runRev (sched ++ ops)).node r = some xr →
+      ∃ V row, xr.mgr.gossip.nodes.find a = some V ∧ V.version = (Gossip.own xa.mgr.gossip).version ∧
+        V.left = false ∧
+        (∀ k, V.entries.find k = (Gossip.own xa.mgr.gossip).entries.find k) ∧
+        (∀ e, (V.entries.find ("endpoint:" ++ e)).bind (fun en => if en.deleted then none else some en.value) =
+          advertised xa.mgr e) ∧
+        xr.sync.pending.find a = none ∧
+        xr.mgr.cluster.nodes.find a = some row ∧ row.id = a ∧
+        row.proxyAddr = xa.mgr.cluster.localNode.proxyAddr ∧
+        row.adminAddr = xa.mgr.cluster.localNode.adminAddr ∧
+        row.status = (if V.unreachable then Cluster.Status.unreachable else Cluster.Status.active) ∧
+        ∀ e, row.endpoints.find e = xa.mgr.cluster.localNode.endpoints.find e ∧
+          row.endpoints.find e =
+            if (xa.mgr.registry e).length = 0 then none else some ((xa.mgr.registry e).length : Int)) := by
+  have hlocal : ∀ e, xa.mgr.cluster.localNode.endpoints.find e =
+        (if (xa.mgr.registry e).length = 0 then none else some ((xa.mgr.registry e).length : Int)) ∧
+      advertised xa.mgr e =
+        (if (xa.mgr.registry e).length = 0 then none else some (toString (xa.mgr.registry e).length)) := by
+    intro e
+    obtain ⟨⟨row, _, _, hloc, hc⟩, hadv⟩ := C20_system_local_consistent _ hall a xa ha e
+    exact ⟨by rw [hloc]; exact hc, hadv⟩
+  refine ⟨hlocal, ?_⟩
+  intro r xr hne hr
+  obtain ⟨V, hV, hver⟩ := C04_caught_up_after_settle ops sched hall hq hjoins r a hne xr xa hr ha
+  obtain ⟨hpend, row, hrow, _, hid, hp, hq', hes, hst⟩ := C04_mirror_system _ hall r a hne xr xa hr ha V hV hver
+    (hnl a xa ha) (haddr a xa ha).1 (haddr a xa ha).2 (fun e => hsmall a xa e ha)
+  have hexact := Piko.Sys.caught_up_exact _ hall hne hr ha hV hver
+  have hleft : V.left = false := by
+    obtain ⟨sdr, gr, hsr, hgr, rfl⟩ := Piko.Sys.node_eq hr
+    obtain ⟨sda, ga, hsa, hga, rfl⟩ := Piko.Sys.node_eq ha
+    exact (sysInv_runRev _ hall).view_not_left hgr hga hV (hnl a _ ha)
+  refine ⟨V, row, hV, hver, hleft, hexact, fun e => ?_, hpend, hrow, hid, hp, hq', hst,
+    fun e => ⟨by rw [hes e, (hlocal e).1], hes e⟩⟩
+  rw [hexact]
+  show _ = Gossip.liveValue xa.mgr.gossip ("endpoint:" ++ e)
+  unfold Gossip.liveValue
+  cases (Gossip.own xa.mgr.gossip).entries.find ("endpoint:" ++ e) <;> rfl
 
 end Piko
